@@ -1,6 +1,7 @@
 mod common;
 mod c10;
 mod tsx_client;
+mod tsx_server;
 
 fn main() {
     let args: Vec<String> = std::env::args().collect();
@@ -14,6 +15,7 @@ fn main() {
         "c10" => c10::run(&cases),
         "c05" => tsx_client::run(&cases, false),
         "c07" => tsx_client::run(&cases, true),
+        "c06" => tsx_server::run(&cases),
         other => {
             eprintln!("unknown property {}", other);
             std::process::exit(2);
